@@ -1,11 +1,54 @@
 /- Proofs/Ideal.lean — helper lemmas for Properties/C14.lean (single Mathlib modules allowed) -/
 import Mathlib.Data.Fintype.BigOperators
-import Mathlib.Data.Fintype.Pi
-import Mathlib.Data.Fintype.Card
-import Mathlib.Algebra.BigOperators.Group.Finset.Basic
 import Mathlib.Algebra.Order.BigOperators.Group.Finset
-import Mathlib.Tactic.Ring
-import Mathlib.Tactic.Linarith
 import Mathlib.Data.Fin.VecNotation
-namespace Sketchnu
-end Sketchnu
+namespace Sketchnu.Ideal
+open Finset
+
+/-- restriction to the complement of `y` is a bijection on the functions with `h y = h x` -/
+def collideEquiv {n W : ℕ} (x y : Fin n) (hxy : y ≠ x) :
+    {h : Fin n → Fin W // h y = h x} ≃ ({z : Fin n // z ≠ y} → Fin W) where
+  toFun h z := h.1 z.1
+  invFun g := ⟨fun z => if hz : z = y then g ⟨x, hxy.symm⟩ else g ⟨z, hz⟩, by
+    simp [hxy.symm]⟩
+  left_inv := by
+    rintro ⟨h, hh⟩
+    ext z
+    by_cases hz : z = y
+    · subst hz; simp [hh]
+    · simp [hz]
+  right_inv := by
+    intro g
+    ext ⟨z, hz⟩
+    simp [hz]
+
+theorem card_collide {n W : ℕ} (x y : Fin n) (hxy : y ≠ x) :
+    (univ.filter fun h : Fin n → Fin W => h y = h x).card = W ^ (n - 1) := by
+  rw [← Fintype.card_subtype, Fintype.card_congr (collideEquiv x y hxy), Fintype.card_fun,
+    Fintype.card_fin, Fintype.card_subtype_compl, Fintype.card_subtype_eq, Fintype.card_fin]
+
+/-- `Finset.sum_mul` for `ℕ` (avoids importing `Mathlib.Algebra.BigOperators.Ring.Finset`) -/
+theorem sum_mul_nat {ι : Type*} (s : Finset ι) (f : ι → ℕ) (c : ℕ) :
+    (∑ i ∈ s, f i) * c = ∑ i ∈ s, f i * c := by
+  classical
+  induction s using Finset.induction_on with
+  | empty => simp
+  | insert a s ha ih => rw [Finset.sum_insert ha, Finset.sum_insert ha, Nat.add_mul, ih]
+
+theorem sum_collide {n W : ℕ} (w : Fin n → ℕ) (x y : Fin n) :
+    (∑ h : Fin n → Fin W, if y ≠ x ∧ h y = h x then w y else 0)
+      = (if y ≠ x then w y else 0) * W ^ (n - 1) := by
+  by_cases hxy : y = x
+  · simp [hxy]
+  · simp only [ne_eq, hxy, not_false_eq_true, true_and, if_true]
+    rw [← Finset.sum_filter, Finset.sum_const_nat (fun _ _ => rfl), card_collide x y hxy, mul_comm]
+
+theorem card_filter_forall {α : Type*} [Fintype α] [DecidableEq α] {d : ℕ} (P : α → Prop)
+    [DecidablePred P] :
+    (univ.filter fun hs : Fin d → α => ∀ r, P (hs r)).card = (univ.filter P).card ^ d := by
+  rw [← Fintype.card_piFinset_const]
+  congr 1
+  ext hs
+  simp [Fintype.mem_piFinset]
+
+end Sketchnu.Ideal
